@@ -316,7 +316,11 @@ MANIFEST_DEP_TABLES = ("dependencies", "dev-dependencies")
 def v6(F, res):
     """V6: which packages are foreign is decided from each package's OWN root path (…/build/packages/<name>), by
     nothing the caller passes in and by nothing about the package that happens to depend on it."""
-    ag = F.fn("glas::server::Server::assemble_graph")
+    ag0 = F.fn("glas::server::Server::assemble_graph")
+    # a predicate of the server module that the decision was factored into (`is_fetched_package_root(&Path)`) is part of it
+    from lib import inline as _IL
+    ag = _IL.inlined(F, ag0, want=lambda p_: p_.startswith("glas::server::") and p_ != ag0.path and "{closure" not in p_ and
+                     not p_.startswith("glas::server::Server::"), depth=1)
     d = FL.Defs(ag)
     adds = [(b, t) for b, t in ag.calls() if FL.short(callee(t) or callee_def(t)) == "PackageGraph::add_package"]
     if not adds:
